@@ -635,8 +635,12 @@ def array_ctor(typecode, init=()):
 
 
 class array_shim:
+    """stands for the `array` module (array.array(...)) and, when called, for `from array import array`"""
     array = staticmethod(array_ctor)
     ArrayType = SArray
+
+    def __new__(cls, typecode, init=()):
+        return array_ctor(typecode, init)
 
 
 def byteord(c):
@@ -972,6 +976,9 @@ class math_shim:
     @staticmethod
     def isclose(a, b, rel_tol=1e-09, abs_tol=0.0):
         if is_sym(a) or is_sym(b):
+            if rel_tol == 1e-09 and not abs_tol:
+                # default tolerances only absorb float rounding noise; under R-float (exact reals) there is none: a == b
+                return bool(a == b)
             d = abs(a - b)
             m = abs(a)
             mb = abs(b)
